@@ -140,7 +140,11 @@ func (v *verifLB) opWriteBinaryR(asString bool, lo, hi int) {
 	n := verifNondetInt("wb.n")
 	verifAssume(n >= lo)
 	verifAssume(n <= hi)
-	p := verifNondetBytes("wb", n)
+	// the caller's slice may have spare capacity behind its length: that room is the caller's too
+	extra := verifNondetInt("wb.extra")
+	verifAssume(extra >= 0)
+	verifAssume(extra <= 64)
+	p := verifNondetBytes("wb", n+extra)[:n]
 	var wn int
 	var err error
 	if asString {
@@ -182,7 +186,10 @@ func (v *verifLB) opWriteDirectR(nlo, nhi, rlo, rhi int) {
 	verifAssume(remain <= v.pendN)
 	verifAssume(!v.window)
 	v.lastWD, v.lastRemain = n, remain
-	p := verifNondetBytes("wd", n)
+	extra := verifNondetInt("wd.extra")
+	verifAssume(extra >= 0)
+	verifAssume(extra <= 64)
+	p := verifNondetBytes("wd", n+extra)[:n]
 	err := v.b.WriteDirect(p, remain)
 	verifAssert(err == nil, "C01/writedirect-err")
 	verifAssert(!verifWroteCaller(p), "C03/wrote-caller-memory")
@@ -437,9 +444,50 @@ func (v *verifLB) opSliceNext() {
 	verifAssert(s.r.Len() == s.n-s.consumed, "C01/slice-len-after")
 }
 
+// cut a Slice reader out of the most recent live Slice reader
+func (v *verifLB) opSliceOfSlice() {
+	k := len(v.slices) - 1
+	verifAssume(k >= 0)
+	verifAssume(!v.slices[k].released)
+	s := &v.slices[k]
+	n := v.readArg("slice2.n")
+	left := s.n - s.consumed
+	if n > 0 && n <= left {
+		// Slice releases what its reader handed out before
+		v.endLeases(k)
+	}
+	r, err := s.r.Slice(n)
+	if n <= 0 {
+		verifAssert(err == nil && r != nil && r.Len() == 0, "C01/slice2-nonpositive")
+		return
+	}
+	if n > left {
+		verifAssert(err != nil, "C01/slice2-overread-no-error")
+		return
+	}
+	verifAssert(err == nil, "C01/slice2-err")
+	lb, ok := r.(*LinkBuffer)
+	verifAssert(ok && lb.Len() == n, "C01/slice2-len")
+	sr := verifSliceReader{r: lb, start: s.start + s.consumed, n: n}
+	for nd := lb.head; nd != nil; nd = nd.next {
+		if len(nd.buf) > 0 {
+			id := verifBlockID(nd.buf)
+			verifGhostSet("hold", id, verifGhostGet("hold", id)+1)
+			sr.holds = append(sr.holds, id)
+		}
+	}
+	s.consumed += n
+	v.slices = append(v.slices, sr)
+	verifAssert(s.r.Len() == s.n-s.consumed, "C01/slice2-parent-len-after")
+}
+
 func (v *verifLB) opSliceRelease() {
 	k := len(v.slices) - 1
 	verifAssume(k >= 0)
+	v.opSliceReleaseIdx(k)
+}
+
+func (v *verifLB) opSliceReleaseIdx(k int) {
 	verifAssume(!v.slices[k].released)
 	// a Slice reader is released once it has been consumed (its Release frees what was read)
 	v.endLeases(k)
@@ -532,6 +580,7 @@ const (
 	verifOpReadCopy
 	verifOpBookAck
 	verifOpGetBytes
+	verifOpSliceOfSlice
 	verifOpCount
 )
 
@@ -593,6 +642,8 @@ func (v *verifLB) step(op int) {
 		v.opBookAck()
 	case verifOpGetBytes:
 		v.opGetBytes()
+	case verifOpSliceOfSlice:
+		v.opSliceOfSlice()
 	}
 	v.ops++
 	v.checkLens("C01/after-op")
@@ -634,6 +685,12 @@ func (v *verifLB) drain() {
 			v.addLease(p, "slice.next", k)
 		}
 	}
+	v.checkLeases()
+	verifScribblePool()
+	v.checkLeases()
+	// the parent's Release ends the parent's results only: what live Slice readers handed out
+	// stays intact
+	v.opRelease()
 	v.checkLeases()
 	verifScribblePool()
 	v.checkLeases()
